@@ -27,6 +27,10 @@ RoIdC == "RO1"
 
 ItemN(id, owner, v) == Leaf("item", id, "x:item." \o owner \o "." \o id \o v)
 ParaN(owner, k)     == Leaf("p", None, "x:p." \o owner \o "." \o ToString(k))
+(* elements of another namespace whose local names are story / item and   *)
+(* which spell the id of a later real story / item: not stories, not items *)
+GhostStory == Leaf("{urn:verif:arc}story", None, "x:ghost.story")
+GhostItem  == Leaf("{urn:verif:arc}item", None, "x:ghost.item")
 (* an item followed by character data (token "xt:": gamma writes text after the element) *)
 ItemT(id, owner, v) == Leaf("item", id, "xt:item." \o owner \o "." \o id \o v)
 
@@ -48,6 +52,12 @@ StoryBare(x, v) == Nd("story", x, None, << Leaf("storyID", x, "="), ItemN("I1", 
 (* the story's id; the second one spells the id messages use as "unknown") *)
 StoryAttr(x) == [StoryN(x, "") EXCEPT !.tok = "a:" \o x,
                                       !.kids = @ \o <<Leaf("storyID", UnknownS, "=")>>]
+(* a story whose timing payload is not numeric (blank TextTime, "n/a" as   *)
+(* StoryDuration): merging needs IDs only, so this must not matter         *)
+StoryBadTime(x) == Nd("story", x, None,
+                      << Leaf("storyID", x, "="), Leaf("storySlug", None, "x:slug." \o x),
+                         Leaf("mosExternalMetadata", "sch.time", "tmb:" \o x),
+                         ItemN("I1", x, ""), ParaN(x, 1), ItemN("I2", x, "") >>)
 (* a placeholder story: id and slug only, no items yet                    *)
 StoryEmpty(x) == Nd("story", x, None, << Leaf("storyID", x, "="), Leaf("storySlug", None, "x:slug." \o x \o "-empty") >>)
 (* a story whose storyID tag is blank                                      *)
@@ -58,7 +68,8 @@ StoryBlank == Nd("story", None, None,
 RECURSIVE ItemRun(_, _, _, _)
 ItemRun(owner, i, n, mixed) ==
   IF i > n THEN <<>>
-  ELSE (IF mixed THEN <<ParaN(owner, i), ItemT(IId(i), owner, "")>> ELSE <<ItemN(IId(i), owner, "")>>)
+  ELSE (IF mixed THEN (IF i = 2 THEN <<GhostItem>> ELSE <<>>) \o <<ParaN(owner, i), ItemT(IId(i), owner, "")>>
+        ELSE <<ItemN(IId(i), owner, "")>>)
        \o ItemRun(owner, i+1, n, mixed)
 (* "itemfirst": the first item precedes the story's own header elements  *)
 StoryI(x, n, il) ==
@@ -73,6 +84,7 @@ StoryI(x, n, il) ==
 Lead == << Leaf("roID", RoIdC, "="), Leaf("roSlug", None, "x:roSlug"),
            Leaf("roEdStart", None, "ed:0") >>
 Between  == Leaf("roTrigger", None, "x:between")
+LeadNoSlug == << Leaf("roID", RoIdC, "="), Leaf("roEdStart", None, "ed:0") >>
 Trailing == Leaf("mosExternalMetadata", "sch.ro", "x:trailing")
 
 (* layouts: "plain" | "between" | "trailing" | "both" (where metadata sits) *)
@@ -80,15 +92,17 @@ Trailing == Leaf("mosExternalMetadata", "sch.ro", "x:trailing")
 (*          "blank": the last story's storyID is blank                      *)
 (*          "attr": every <story> element carries attributes                *)
 (*          "dup": the last story carries the same storyID as the first     *)
+(*          "badtime": the first story's timing payload is not numeric      *)
 RECURSIVE StoryRun(_, _, _)
 StoryRun(i, n, lay) ==
   IF i > n THEN <<>>
   ELSE << IF (lay = "nt1" /\ i = 1) \/ (lay = "nt2" /\ i = 2) THEN StoryNT(SId(i))
           ELSE IF lay = "blank" /\ i = n THEN StoryBlank
           ELSE IF lay = "attr" THEN StoryAttr(SId(i))
+          ELSE IF lay = "badtime" /\ i = 1 THEN StoryBadTime(SId(i))
           ELSE IF lay = "dup" /\ i = n /\ n >= 2 THEN StoryN(SId(1), "'")      \* the last story repeats the first one's id
           ELSE StoryN(SId(i), "") >>
-       \o (IF lay \in {"between", "both"} /\ i = 1 THEN <<Between>> ELSE <<>>)
+       \o (IF lay \in {"between", "both"} /\ i = 1 THEN <<Between, GhostStory>> ELSE <<>>)
        \o StoryRun(i+1, n, lay)
 
 Root == << Leaf("mosID", None, "x:mosID"), Leaf("ncsID", None, "x:ncsID"),
@@ -99,7 +113,7 @@ RootAttr == [Root EXCEPT ![4] = Leaf("roCreate", None, "a:create")]
 (* story-level shape: n stories, layout                                   *)
 ShapeS(n, lay) ==
   [root |-> IF lay = "attr" THEN RootAttr ELSE Root,
-   kids |-> (IF lay = "leadlast" THEN <<>> ELSE Lead)       \* "leadlast": the stories come first, roID & co after them
+   kids |-> (IF lay = "leadlast" THEN <<>> ELSE IF lay = "badtime" THEN LeadNoSlug ELSE Lead)       \* "leadlast": the stories come first, roID & co after them; "badtime": no roSlug either
                  \o (IF n = 0 /\ lay \in {"between", "both"} THEN <<Between>> ELSE <<>>)
                  \o StoryRun(1, n, lay)
                  \o (IF lay \in {"trailing", "both"} THEN <<Trailing>> ELSE <<>>)
@@ -148,6 +162,7 @@ CarriedStories(K) ==
   { FreshStories(K, k) : k \in 1..MaxCarried }
   \cup { <<StoryNT(FreshFrom(FreshPoolS, IdSet(K, "story"))[1])>> }                  \* a story without timing
   \cup { <<StoryAttr(FreshFrom(FreshPoolS, IdSet(K, "story"))[1])>> }                \* attributes; followed by text
+  \cup { <<StoryBadTime(FreshFrom(FreshPoolS, IdSet(K, "story"))[1])>> \o SubSeq(FreshStories(K, 2), 2, 2) }   \* non-numeric timing, then another
   \cup { FreshStories(K, 1) \o <<StoryBare(x, "'")>> : x \in RealIds(K) }             \* a slug-less duplicate, 2nd
   \cup { <<StoryN(FreshFrom(FreshPoolS, IdSet(K, "story"))[1], ""),                   \* the same new id twice
            StoryBare(FreshFrom(FreshPoolS, IdSet(K, "story"))[1], "'")>> }
